@@ -316,6 +316,22 @@ def run(ctx):
             cuts = simnet.random_partition(rng, 2 * len(big), rng.choice([100, 1460, 65536]))
             run_partition(ctx, 'server', seq, cuts, False, {'kind': 'big', 'cuts': cuts[:50]})
             ctx.count('large_message_runs')
+        # more than 16 KiB of CRLF-free message bytes in the same read as the final handshake line
+        # (one large message, and many pipelined small ones)
+        blob = RM.build(4, 78, {'path': '/a', 'member': 'M', 'interface': 'a.b'}, 's', ['x' * 20000], True)
+        bexp = {'type': 4, 'serial': 78, 'expectReply': True, 'autoStart': True, 'signature': 's', 'path': '/a',
+                'member': 'M', 'interface': 'a.b'}
+        small = RM.build(4, 79, {'path': '/a', 'member': 'M', 'interface': 'a.b'}, 's', ['y' * 40], False)
+        sexp = dict(bexp, serial=79)
+        for seq in ([(blob, bexp, ['x' * 20000])] * 2, [(small, sexp, ['y' * 40])] * 400,
+                    [(small, sexp, ['y' * 40])] * 3 + [(blob, bexp, ['x' * 20000])]):
+            total = sum(len(r_) for r_, _, _ in seq)
+            for mode in ('server', 'client'):
+                hs = len(handshake_bytes(mode))
+                for cuts in ([], [hs + 16400], [hs - 2, hs + 17000], [hs + 5], [hs + total // 2]):
+                    cuts = [c for c in cuts if 0 < c < hs + total]
+                    run_partition(ctx, mode, seq, cuts, True, {'kind': 'big-hs', 'mode': mode, 'cuts': cuts})
+                    ctx.count('handshake_coalesced_large')
     s0 = make_sequence(ctx.seed, 0, 2, small=True)
     ctx.sample({'sequence_hex': [raw.hex() for raw, _, _ in s0], 'expected': [e for _, e, _ in s0],
                 'partitions': 'every single cut, every pair of cuts'})
